@@ -14,6 +14,13 @@
 (*             seen_rules.txt   binary pairs whose two categories are BOTH in   *)
 (*                          target.txt - i.e. frequent *lexical* categories     *)
 (*             unary_rules.txt  every unary pair, parent first                  *)
+(*             prefixes.txt / suffixes.txt   the first / last 1..4 characters   *)
+(*                          of every leaf word (case kept, unlike words.txt),   *)
+(*                          a word shorter than k counting as OORk instead, seen *)
+(*                          at least AfixCut times; six reserved entries start   *)
+(*                          at AfixCut.  The keys are plain strings: a word that  *)
+(*                          ends in the letters OOR2 feeds the same counter as   *)
+(*                          the one-letter words (modelled as it is)             *)
 (* What the code does is modelled, including what a user may not expect         *)
 (* (NotEveryTreeOfTheBankIsLicensed below); no listed property is about this    *)
 (* tool, its conformance is reported, never claimed.                            *)
@@ -21,9 +28,19 @@
 (* else of it.  The trace specification feeds recorded projections to the same  *)
 (* operators.                                                                   *)
 EXTENDS Naturals, Sequences, FiniteSets, TLC, Json
-CONSTANTS Cats, Words, MaxTrees, Depth, CatCut, WordCut
+CONSTANTS Cats, Words, MaxTrees, Depth, CatCut, WordCut, AfixCut,
+          SpellOf     \* how a model word is spelled: a function Words -> non-empty sequences of one-character strings
 Failed == "FAILED"
 Reserved == {"*UNKNOWN*", "*START*", "*END*"}
+AfixReserved == Reserved \cup {"OOR2", "OOR3", "OOR4"}
+Spell(w) == IF w = Failed THEN <<"F", "A", "I", "L", "E", "D">> ELSE SpellOf[w]
+
+(* ---- affixes (get_prefix / get_suffix): keys are strings, a word is a sequence of characters ---- *)
+RECURSIVE Join(_)
+Join(cs) == IF cs = <<>> THEN "" ELSE Head(cs) \o Join(Tail(cs))
+OOR(k) == CASE k = 2 -> "OOR2" [] k = 3 -> "OOR3" [] k = 4 -> "OOR4"
+Prefixes(cs) == [k \in 1..4 |-> IF k = 1 \/ Len(cs) >= k THEN Join(SubSeq(cs, 1, k)) ELSE OOR(k)]
+Suffixes(cs) == [k \in 1..4 |-> IF k = 1 \/ Len(cs) >= k THEN Join(SubSeq(cs, Len(cs) - k + 1, Len(cs))) ELSE OOR(k)]
 
 L(c, w) == [k |-> "L", c |-> c, w |-> w, kids |-> <<>>]
 U(c, t) == [k |-> "U", c |-> c, w |-> "", kids |-> <<t>>]
@@ -42,20 +59,21 @@ UnSeq(t) == IF t.k = "L" THEN <<>> ELSE IF t.k = "U" THEN <<<<t.c, t.kids[1].c>>
 (* everything the creator reads of a tree *)
 (* `failed`: the test in the code is `tree.word != 'FAILED'`, and the word of an inner node is the words of its leaves joined by  *)
 (* blanks - so a unary chain over one leaf FAILED is dropped as well as the bare leaf; words are counted lower-cased             *)
-Lower(w) == IF w = Failed THEN "failed" ELSE w                  \* the model's other words are lower-case already
+Lower(w) == CASE w = Failed -> "failed" [] w = "OOR2" -> "oor2" [] OTHER -> w        \* the model's other words are lower-case already
 Flat(t) == LET ls == LeafSeq(t) IN
-           [failed |-> Len(ls) = 1 /\ ls[1][2] = Failed, leaves |-> [j \in DOMAIN ls |-> <<ls[j][1], Lower(ls[j][2])>>],
+           [failed |-> Len(ls) = 1 /\ ls[1][2] = Failed, leaves |-> [j \in DOMAIN ls |-> <<ls[j][1], Lower(ls[j][2]), Spell(ls[j][2])>>],
             bins |-> BinSeq(t), uns |-> UnSeq(t)]
 
 VARIABLES bank,      \* the file: a sequence of flat projections
-          pc, kept, i, catn, wordn, seenn, unn, nsamples, out
-vars == <<bank, pc, kept, i, catn, wordn, seenn, unn, nsamples, out>>
+          pc, kept, i, catn, wordn, seenn, unn, pren, sufn, nsamples, out
+vars == <<bank, pc, kept, i, catn, wordn, seenn, unn, pren, sufn, nsamples, out>>
 
 SeqsUpTo(S, n) == UNION {[1..k -> S] : k \in 0..n}
 Empty == [x \in {} |-> 0]
-NoOut == [target |-> Empty, words |-> Empty, seen |-> Empty, unary |-> Empty]
+NoOut == [target |-> Empty, words |-> Empty, seen |-> Empty, unary |-> Empty, prefixes |-> Empty, suffixes |-> Empty]
 InitRest == /\ pc = "load" /\ kept = <<>> /\ i = 1 /\ catn = Empty /\ seenn = Empty /\ unn = Empty
             /\ wordn = [w \in Reserved |-> WordCut] /\ nsamples = 0 /\ out = NoOut
+            /\ pren = [a \in AfixReserved |-> AfixCut] /\ sufn = [a \in AfixReserved |-> AfixCut]
 Init == bank \in SeqsUpTo({Flat(t) : t \in TreesOf(Depth)}, MaxTrees) /\ InitRest
 
 (* a table that grows on first use *)
@@ -63,30 +81,32 @@ Bump(f, x) == IF x \in DOMAIN f THEN [f EXCEPT ![x] = @ + 1] ELSE f @@ (x :> 1)
 RECURSIVE BumpAll(_, _)
 BumpAll(f, xs) == IF xs = <<>> THEN f ELSE BumpAll(Bump(f, Head(xs)), Tail(xs))
 AtLeast(f, n) == [x \in {y \in DOMAIN f : f[y] >= n} |-> f[x]]
+RECURSIVE Cat(_)
+Cat(ss) == IF ss = <<>> THEN <<>> ELSE Head(ss) \o Cat(Tail(ss))
 
 Load == /\ pc = "load" /\ kept' = SelectSeq(bank, LAMBDA f : ~f.failed) /\ pc' = "traverse"
-        /\ UNCHANGED <<bank, i, catn, wordn, seenn, unn, nsamples, out>>
+        /\ UNCHANGED <<bank, i, catn, wordn, seenn, unn, pren, sufn, nsamples, out>>
 Traverse == /\ pc = "traverse" /\ i <= Len(kept)
             /\ LET f == kept[i] IN
                /\ catn' = BumpAll(catn, [j \in DOMAIN f.leaves |-> f.leaves[j][1]])
                /\ wordn' = BumpAll(wordn, [j \in DOMAIN f.leaves |-> f.leaves[j][2]])
                /\ seenn' = BumpAll(seenn, f.bins)
                /\ unn' = BumpAll(unn, f.uns)
+               /\ pren' = BumpAll(pren, Cat([j \in DOMAIN f.leaves |-> Prefixes(f.leaves[j][3])]))
+               /\ sufn' = BumpAll(sufn, Cat([j \in DOMAIN f.leaves |-> Suffixes(f.leaves[j][3])]))
             /\ i' = i + 1 /\ UNCHANGED <<bank, pc, kept, nsamples, out>>
 Samples == /\ pc = "traverse" /\ i > Len(kept) /\ nsamples' = Len(kept) /\ pc' = "write"
-           /\ UNCHANGED <<bank, kept, i, catn, wordn, seenn, unn, out>>
+           /\ UNCHANGED <<bank, kept, i, catn, wordn, seenn, unn, pren, sufn, out>>
 Write == /\ pc = "write" /\ pc' = "done"
          /\ LET tg == AtLeast(catn, CatCut) IN
             out' = [target |-> tg, words |-> AtLeast(wordn, WordCut),
                     seen |-> [p \in {q \in DOMAIN seenn : q[1] \in DOMAIN tg /\ q[2] \in DOMAIN tg} |-> seenn[p]],
-                    unary |-> unn]
-         /\ UNCHANGED <<bank, kept, i, catn, wordn, seenn, unn, nsamples>>
+                    unary |-> unn, prefixes |-> AtLeast(pren, AfixCut), suffixes |-> AtLeast(sufn, AfixCut)]
+         /\ UNCHANGED <<bank, kept, i, catn, wordn, seenn, unn, pren, sufn, nsamples>>
 Next == Load \/ Traverse \/ Samples \/ Write
 Spec == Init /\ [][Next]_vars /\ WF_vars(Next)
 
 (* ---- what the files are, said without the tables (the oracle of the trace specification) ---- *)
-RECURSIVE Cat(_)
-Cat(ss) == IF ss = <<>> THEN <<>> ELSE Head(ss) \o Cat(Tail(ss))
 Occ(seq, x) == Cardinality({j \in DOMAIN seq : seq[j] = x})
 Range(seq) == {seq[j] : j \in DOMAIN seq}
 KeptOf(b) == SelectSeq(b, LAMBDA f : ~f.failed)
@@ -101,13 +121,34 @@ ExpSeen(b, cut) == LET bs == Cat([j \in DOMAIN KeptOf(b) |-> KeptOf(b)[j].bins])
                        tg == DOMAIN ExpTarget(b, cut)
                    IN [p \in {q \in Range(bs) : q[1] \in tg /\ q[2] \in tg} |-> Occ(bs, p)]
 ExpUnary(b) == LET us == Cat([j \in DOMAIN KeptOf(b) |-> KeptOf(b)[j].uns]) IN [p \in Range(us) |-> Occ(us, p)]
-Expected(b, ccut, wcut) == [target |-> ExpTarget(b, ccut), words |-> ExpWords(b, wcut), seen |-> ExpSeen(b, ccut), unary |-> ExpUnary(b)]
+(* F is Prefixes or Suffixes *)
+ExpAffix(b, cut, F(_)) == LET ls == Cat([j \in DOMAIN KeptOf(b) |-> KeptOf(b)[j].leaves])
+                              as == Cat([j \in DOMAIN ls |-> F(ls[j][3])])
+                              n(a) == Occ(as, a) + (IF a \in AfixReserved THEN cut ELSE 0)
+                          IN [a \in {x \in Range(as) \cup AfixReserved : n(x) >= cut} |-> n(a)]
+Expected(b, ccut, wcut, acut) == [target |-> ExpTarget(b, ccut), words |-> ExpWords(b, wcut), seen |-> ExpSeen(b, ccut), unary |-> ExpUnary(b),
+                                  prefixes |-> ExpAffix(b, acut, Prefixes), suffixes |-> ExpAffix(b, acut, Suffixes)]
 
 (* ---- properties ---- *)
-FilesAreTheCounts == pc = "done" => out = Expected(bank, CatCut, WordCut)
+FilesAreTheCounts == pc = "done" => out = Expected(bank, CatCut, WordCut, AfixCut)
 OneSamplePerKeptTree == pc \in {"write", "done"} => nsamples = Cardinality({j \in DOMAIN bank : ~bank[j].failed})
 ReservedWordsAlwaysWritten == pc = "done" => Reserved \subseteq DOMAIN out.words
 SeenRulesOverTargetsOnly == pc = "done" => \A p \in DOMAIN out.seen : p[1] \in DOMAIN out.target /\ p[2] \in DOMAIN out.target
+AfixReservedAlwaysWritten == pc = "done" => AfixReserved \subseteq DOMAIN out.prefixes /\ AfixReserved \subseteq DOMAIN out.suffixes
+(* every leaf feeds exactly four prefix counters and four suffix counters (some of them the OORk ones) *)
+RECURSIVE SumOf(_, _)
+SumOf(f, S) == IF S = {} THEN 0 ELSE LET x == CHOOSE y \in S : TRUE IN f[x] + SumOf(f, S \ {x})
+NLeavesUpTo(n) == LET ks == SubSeq(kept, 1, n) IN Len(Cat([j \in DOMAIN ks |-> ks[j].leaves]))
+FourAffixesPerLeaf == pc # "load" => /\ SumOf(pren, DOMAIN pren) = 6 * AfixCut + 4 * NLeavesUpTo(i - 1)
+                                     /\ SumOf(sufn, DOMAIN sufn) = 6 * AfixCut + 4 * NLeavesUpTo(i - 1)
+(* the marker OORk counts the words shorter than k - and every genuine prefix that is spelled like it (the word OOR2 feeds OOR2 with its *)
+(* first four characters): the keys are plain strings, modelled as they are                                                            *)
+ShortWordsFeedTheMarkers == pc # "load" =>
+  \A k \in 2..4 : LET ks == SubSeq(kept, 1, i - 1)
+                       ls == Cat([j \in DOMAIN ks |-> ks[j].leaves])
+                       short == Cardinality({j \in DOMAIN ls : Len(ls[j][3]) < k})
+                       spelled == Cardinality({jm \in (DOMAIN ls) \X (1..4) : Len(ls[jm[1]][3]) >= jm[2] /\ Prefixes(ls[jm[1]][3])[jm[2]] = OOR(k)})
+                   IN pren[OOR(k)] = AfixCut + short + spelled
 CountsOnlyGrow == [][\A c \in DOMAIN catn : c \in DOMAIN catn' /\ catn'[c] >= catn[c]]_vars
 Terminates == <>(pc = "done")
 (* NOT a property of the code (TrainData_licensed.cfg expects TLC to refute it, the harness checks that it does): with a cut of 1 *)
